@@ -8,7 +8,7 @@ for d in /verif/refactors/*/; do
   tag=$(basename "$d")
   if ! git apply --check "$d/patch.diff" 2>/dev/null; then echo "$tag: patch no longer applies"; continue; fi
   git apply "$d/patch.diff"
-  for p in C03 C04 C05 C06 C07 C08 C09 C11 C12 C13 C14 C15 C16 C17 C18 C19 C20; do
+  for p in $(python3 -c "import json;print(' '.join(c['property_id'] for c in json.load(open('/verif/MANIFEST.json'))['checks']))"); do
     out=$(cd /verif && /venv/bin/python -m sa check $p --tier quick 2>&1); rc=$?
     if [ $rc -ne 0 ]; then echo "$tag $p: rc=$rc"; echo "$out" | grep "^  infretis\|ANALYSIS" | head -3; fail=1; fi
   done
